@@ -89,6 +89,8 @@ for h, b in (("add_device_0_ports", "3 devices, 0 ports"), ("add_device_1_port_3
 for h, b in (("remove_device_3", "removed id 3"), ("remove_device_4", "removed id 4"), ("remove_device_kbd", "removed id 1 (keyboard)"), ("remove_device_null", "removed id 0"), ("remove_device_absent", "removed id 9 (no such device)")):
     K(f"K.device.{h}", "sim__device.rs", h, ["C32"], ["DeviceHandler::remove_device"], kind="bounded",
       bound="5 device slots; arbitrary owner at one concrete port, unowned elsewhere; " + b, group="dev", timeout=1200)
+K("K.device.remove_device_multi_port", "sim__device.rs", "remove_device_multi_port", ["C32"], ["DeviceHandler::remove_device", "DeviceHandler::add_device"], kind="bounded",
+  bound="concrete table: device 3 owns three ports, device 4 one; remove 3, then add a device on two of the freed ports", group="dev", timeout=1200)
 K("K.device.set_kbd_display", "sim__device.rs", "set_keyboard_display_contract", ["C32"], ["DeviceHandler::set_keyboard", "DeviceHandler::set_display"], group="dev")
 K("K.device.interrupt_leaf", "sim__device.rs", "interrupt_leaf", ["C10", "C34"], ["Interrupt::vectored", "Interrupt::priority"], group="dev", replay="native")
 K("K.device.poll_arbitration_3", "sim__device.rs", "poll_arbitration_3", ["C10"], ["DeviceHandler::poll_interrupt"], kind="bounded", bound="3 device slots", stubs=[SLOT], group="dev")
@@ -96,10 +98,10 @@ K("K.device.poll_arbitration_4", "sim__device.rs", "poll_arbitration_4", ["C10"]
 K("K.device.io_reset_all", "sim__device.rs", "io_reset_all", ["C30"], ["DeviceHandler::io_reset"], kind="bounded", bound="4 device slots", stubs=[SLOT], group="dev")
 
 # ------------------------------------------------------------------------------------------------ sim.rs
-STEP_FNS = ["Simulator::step_in", "Simulator::step", "Simulator::_step_inner", "Simulator::handle_interrupt", "Simulator::call_interrupt",
+STEP_FNS = ["Simulator::step", "Simulator::_step_inner", "Simulator::handle_interrupt", "Simulator::call_interrupt",
             "Simulator::call_subroutine", "Simulator::set_pc", "Simulator::offset_pc", "Simulator::set_cc", "Simulator::prefetch_pc",
             "Simulator::default_mem_ctx", "FrameStack::push_frame", "FrameStack::pop_frame", "SimInstr::decode", "PSR::*", "Word ops"]
-L2STUBS = ["Simulator::read_mem=L1 contract (obligations K.sim.l1_read_*)", "Simulator::write_mem=L1 contract (obligations K.sim.l1_write_*)",
+L2STUBS = ["FrameStack::push_frame=contract: depth + 1, records caller/callee/kind (K.frame.depth, K.frame.debug_frame_*)", "AccessObserver::clear=counted (K.observer.map)", "Simulator::read_mem=L1 contract (obligations K.sim.l1_read_*)", "Simulator::write_mem=L1 contract (obligations K.sim.l1_write_*)",
            "DeviceHandler::poll_interrupt=any pending vectored request or none (K.device.poll_arbitration_*)", RS]
 L2ASSUME = ["internal-register map is the default one (PSR@xFFFC, MCR@xFFFE) in L2 obligations",
             "a device port read twice within one step returns the same value (memory is modelled as a function of the address within a step)",
@@ -110,7 +112,7 @@ CLASSES = {"alu": ["C08", "C16", "C28"], "load": ["C08", "C09", "C16", "C28"], "
            "irq": ["C08", "C10", "C16", "C27", "C28"], "bad": ["C08", "C09", "C16", "C28", "C12"]}
 for c, props in CLASSES.items():
     for mode in ("virtual", "real"):
-        K(f"K.sim.step_{c}_{mode}", "sim.rs", f"step_{c}_{mode}", sorted(set(props + (["C12"] if mode == "real" and c != "irq" else []))), STEP_FNS, args=UF, timeout=1500, stubs=L2STUBS, assumptions=L2ASSUME, group=f"step{c}")
+        K(f"K.sim.step_{c}_{mode}", "sim.rs", f"step_{c}_{mode}", sorted(set(props + (["C12"] if mode == "real" and c != "irq" else []))), STEP_FNS, args=UF, timeout=1500, stubs=L2STUBS, assumptions=L2ASSUME, group=f"step{c}", replay="native")
 K("K.sim.psr_leaf", "sim.rs", "psr_leaf", ["C08"], ["PSR::new/get/set/privileged/priority/cc/is_n/is_z/is_p/set_privileged/set_priority/set_cc/set_cc_n/set_cc_z/set_cc_p"], group="simleaf", args=UF, replay="native")
 K("K.sim.sim_leaf", "sim.rs", "sim_leaf", ["C08", "C09", "C16", "C28"], ["Simulator::default_mem_ctx", "MemAccessCtx::omnipotent", "Simulator::set_cc", "Simulator::prefetch_pc"], group="simleaf", args=UF, stubs=[RS])
 K("K.sim.in_alloca", "sim.rs", "in_alloca_contract", ["C14", "C16"], ["Simulator::in_alloca"], kind="bounded", bound="<= 2 loaded blocks (sorted, disjoint)", group="simleaf", args=UF, stubs=[RS])
@@ -132,6 +134,8 @@ K("K.sim.reset", "sim.rs", "reset_contract", ["C30"], ["Simulator::reset"], args
   stubs=["Simulator::new_with_mcr=records its arguments, returns a marked fresh machine", "DeviceHandler::io_reset=counted (K.device.io_reset_all)", RS], group="reset")
 K("K.sim.reset_register_map", "sim.rs", "reset_keeps_register_map", ["C30"], ["Simulator::reset"], kind="bounded", bound="one concrete mapping (PC@xFE10) before the reset; fresh machine has the default map",
   args=UF, stubs=["Simulator::new_with_mcr=marked fresh machine with the default register map", "DeviceHandler::io_reset=counted", RS], unwindset={"hashbrown": 3}, timeout=2400, tier="thorough", exploratory=True)
+K("K.sim.step_in_contract", "sim.rs", "step_in_contract", ["C13", "C28", "C08"], ["Simulator::step_in"], args=UF,
+  stubs=["Simulator::step=any outcome (contract discharged by K.sim.step_*)", "AccessObserver::clear=counted (K.observer.map)", RS], group="stepin", timeout=1200)
 RUNFN = ["Simulator::run_while", "Simulator::run_with_limit", "Simulator::run", "Simulator::step_over", "Simulator::step_out", "Simulator::hit_halt", "Simulator::hit_breakpoint", "Breakpoint::check"]
 STEPSTUB = ["Simulator::step=contract: arbitrary outcome; on Ok the counter may advance by one, depth moves by at most one, PC arbitrary, MCR may be cleared (discharged per step by K.sim.step_*)", RS]
 for h, b in (("run_with_limit_3", "<= 3 loop iterations, no breakpoint"), ("step_over_3", "<= 3 loop iterations"), ("step_out_3", "<= 3 loop iterations"),
@@ -139,6 +143,10 @@ for h, b in (("run_with_limit_3", "<= 3 loop iterations, no breakpoint"), ("step
     K(f"K.sim.{h}", "sim.rs", h, ["C13"], RUNFN, kind="bounded", bound=b, args=UF, stubs=STEPSTUB, group="runloops", timeout=1200)
 for h, b in (("run_with_limit_4", "<= 4 loop iterations, no breakpoint"), ("step_over_4", "<= 4 loop iterations"), ("step_out_4", "<= 4 loop iterations")):
     K(f"K.sim.{h}", "sim.rs", h, ["C13"], RUNFN, kind="bounded", bound=b, args=UF, stubs=STEPSTUB, group="runloops", timeout=2400, tier="thorough", exploratory=True)
+K("K.sim.run_while_tripwire_bp", "sim.rs", "run_while_tripwire_adds_breakpoint", ["C13"], RUNFN, kind="bounded", bound="<= 3 loop iterations; the tripwire inserts one PC breakpoint (concrete address) on its first call",
+  args=UF, stubs=STEPSTUB, group="runloops", timeout=1500)
+K("K.sim.mmap_internal_twice", "sim.rs", "mmap_internal_twice", ["C32"], ["Simulator::mmap_internal"], kind="bounded", bound="empty map; two mappings at the concrete address xFE10; register kinds symbolic",
+  args=UF, stubs=[RS], unwindset={"hashbrown": 3}, timeout=2400)
 K("K.sim.mmap_internal_empty_nonio", "sim.rs", "mmap_internal_empty_nonio", ["C32"], ["Simulator::mmap_internal", "Simulator::munmap_internal"], kind="bounded",
   bound="empty map; non-I/O address x3000 (concrete keys: SipHash of a symbolic key is out of reach); register kind symbolic", args=UF, stubs=[RS], group="mmap", timeout=1200)
 for h, b in (("mmap_internal_empty_free", "empty map; address xFE10"), ("mmap_internal_empty_other", "empty map; address xFE10, probe xFE20"),
@@ -194,8 +202,6 @@ for h in ("source_info_0_0", "source_info_3_0", "source_info_3_1", "source_info_
       kind="bounded", bound="text of %s bytes with %s newlines at symbolic positions" % tuple(h.split("_")[2:]), group="src", replay="native")
 EXTR = "add_label is nested inside SymbolTable::new: its text is copied verbatim from /repo on every run into a generated module (only `pub(crate)` prepended); the call sites in the statement loop are not covered"
 K("K.asm.add_label_vacant", "asm.rs", "add_label_vacant", ["C02", "C23"], ["add_label (nested in SymbolTable::new)"], kind="bounded", bound="empty table; name 'Ab'; address, span start, external flag symbolic", stubs=[RS], assumptions=[EXTR], timeout=1800)
-K("K.asm.add_label_same_address", "asm.rs", "add_label_same_address", ["C02", "C23"], ["add_label (nested in SymbolTable::new)"], kind="bounded", bound="table with one entry 'A'; new spelling 'a' at the same address; address and external flags symbolic", stubs=[RS], assumptions=[EXTR], timeout=1800)
-K("K.asm.add_label_conflict", "asm.rs", "add_label_conflict", ["C02", "C23", "C26"], ["add_label (nested in SymbolTable::new)"], kind="bounded", bound="table with one entry 'A'; new spelling 'a' at a different address; addresses and external flags symbolic", stubs=[RS], assumptions=[EXTR], timeout=1800)
 for k in (1, 2, 3, 4):
     K(f"K.asm.get_line_{k}", "asm.rs", f"get_line_{k}", ["C25"], ["SourceInfo::get_line"], kind="bounded", bound=f"newline table of {k} entries; entries and index symbolic", group="src", timeout=900)
 K("K.asm.get_line_7", "asm.rs", "get_line_7", ["C25"], ["SourceInfo::get_line"], kind="bounded", bound="newline table of 7 entries", group="src", timeout=900, tier="thorough")
